@@ -69,6 +69,8 @@ func c05BodyAlphabet(p, q string) []string {
 		"if " + p + " == 3 { " + p + " = 2 }", p + " := 4", "x = " + p + "; x", "for " + p + " { 1 }", "-" + p, p + " * 2.5", p + " == " + q, "len(" + p + ")",
 		"g = func(" + p + ") { " + p + " + 1 }; g(1)", "(" + p + " => " + p + " * 2)(5)", "mm = {\"" + p + "\": 7}; mm." + p, "mm = {}; mm[" + p + "] = " + p + "; mm", "aa = [0, 0, 0, 0]; aa[" + p + "] = " + p + "; aa",
 		"gv = " + p, p + " = " + p + " * 2", "gw = [" + p + "]", "(for i = 2 { " + p + " }) + (for j = 2 { j })", "rdg(" + p + ")", "eval(\"" + p + "\")", "[" + p + ", " + p + " + 1][" + p + " - " + p + "]", "sprintf(\"%v\", " + p + ")", "min(" + p + ", 2)", "\"s\" * " + p,
+		// the parameter used as if it were a container
+		p + "[0] = 1", p + ".k = 1", p + "[0]", "del(" + p + "[0])", p + "[0:1]", p + "[0]++",
 	}
 }
 
